@@ -68,3 +68,98 @@ def heap_unchanged_except(ctx, *names):
         conj.append(forall([r], z3.Implies(z3.And(r > 0, r < old.alloc), z3.Select(now, r) == z3.Select(then, r)),
                               patterns=[z3.Select(now, r)]))
     return mk_bool(z3.And(*conj) if conj else z3.BoolVal(True))
+
+
+@specfn('lists_unchanged_except_series_of')
+def lists_unchanged_except_series_of(ctx, solver):
+    """every list allocated at entry that is not one of solver.TimeSeries's series (entry state) is unchanged"""
+    st, old = ctx.st, ctx.entry
+    r = z3.Int(fresh_name('r'))
+    k = z3.String(fresh_name('k'))
+    ts = old.get_field(solver, 'TimeSeries')
+    kty, vty = old.dict_types(ts)
+    has = z3.Select(_fam_now(old, old._dh(kty)), ts.t)
+    dv = z3.Select(_fam_now(old, old._dv(kty, vty)), ts.t)
+    is_series = z3.Exists([k], z3.And(z3.Select(has, k), z3.Select(dv, k) == r))
+    conj = []
+    for name in sorted(FAM_SORTS):
+        if not (name == 'len' or name.startswith('el.')):
+            continue
+        now, then = _fam_now(st, name), _fam_now(old, name)
+        if now is then or z3.eq(now, then):
+            continue
+        conj.append(forall([r], z3.Implies(z3.And(r > 0, r < old.alloc, z3.Not(is_series)), z3.Select(now, r) == z3.Select(then, r)),
+                           patterns=[z3.Select(now, r)]))
+    return mk_bool(z3.And(*conj) if conj else z3.BoolVal(True))
+
+
+@specfn('fresh_lists_unchanged_since')
+def fresh_lists_unchanged_since(ctx, snap, *except_lists):
+    """lists allocated after function entry and before the snapshot (other than the named ones) have the
+    contents they had at the snapshot"""
+    st, old, h = ctx.st, ctx.entry, snap.meta
+    r = z3.Int(fresh_name('r'))
+    conj = []
+    guard = [r >= old.alloc, r < h.alloc] + [r != x.t for x in except_lists]
+    for name in sorted(FAM_SORTS):
+        if not (name == 'len' or name.startswith('el.')):
+            continue
+        now, then = _fam_now(st, name), _fam_now(h, name)
+        if now is then or z3.eq(now, then):
+            continue
+        conj.append(forall([r], z3.Implies(z3.And(*guard), z3.Select(now, r) == z3.Select(then, r)), patterns=[z3.Select(now, r)]))
+    return mk_bool(z3.And(*conj) if conj else z3.BoolVal(True))
+
+
+@specfn('lists_unchanged_from')
+def lists_unchanged_from(ctx, k):
+    """lists allocated at entry: same length; float elements at index >= k unchanged; all other elements unchanged"""
+    st, old = ctx.st, ctx.entry
+    r = z3.Int(fresh_name('r'))
+    j = z3.Int(fresh_name('j'))
+    conj = []
+    fkey = 'el.' + sortkey(FLOAT)
+    for name in sorted(FAM_SORTS):
+        if not (name == 'len' or name.startswith('el.')):
+            continue
+        now, then = _fam_now(st, name), _fam_now(old, name)
+        if now is then or z3.eq(now, then):
+            continue
+        if name == fkey:
+            conj.append(forall([r, j], z3.Implies(z3.And(r > 0, r < old.alloc, j >= k.t),
+                                                  z3.Select(z3.Select(now, r), j) == z3.Select(z3.Select(then, r), j)),
+                               patterns=[z3.Select(z3.Select(now, r), j)]))
+        else:
+            conj.append(forall([r], z3.Implies(z3.And(r > 0, r < old.alloc), z3.Select(now, r) == z3.Select(then, r)),
+                               patterns=[z3.Select(now, r)]))
+    return mk_bool(z3.And(*conj) if conj else z3.BoolVal(True))
+
+
+@specfn('last_of')
+def last_of(ctx, solver, name):
+    ts = ctx.st.get_field(solver, 'TimeSeries')
+    lst = ctx.st.dict_get(ts, name)
+    return ctx.st.list_get(lst, ctx.st.list_len(lst) - 1)
+
+
+@specfn('prev_of')
+def prev_of(ctx, solver, name):
+    ts = ctx.st.get_field(solver, 'TimeSeries')
+    lst = ctx.st.dict_get(ts, name)
+    return ctx.st.list_get(lst, ctx.st.list_len(lst) - 2)
+
+
+@specfn('all_series_finite')
+def all_series_finite(ctx, holder):
+    """every stored value of every series of the holder is a finite number (no inf / nan)"""
+    from pyvc import ops
+    if not ops.is_xreal():
+        return mk_bool(True)
+    st = ctx.st
+    k = z3.String(fresh_name('s'))
+    j = z3.Int(fresh_name('j'))
+    name = SV(STR, k)
+    lst = st.dict_get(holder, name)
+    v = st.list_get(lst, j)
+    return mk_bool(forall([k, j], z3.Implies(z3.And(st.dict_has(holder, name), 0 <= j, j < st.list_len(lst)), ops.xr_tag(v.t) == FIN),
+                          patterns=[v.t]))
